@@ -87,3 +87,74 @@ def recorded_extent(b, i):
     ln = u32(b, off + 4)
     if ln is None: return None
     return off + 8, ln & 0x7FFFFFFF
+
+# ---------------------------------------------------------------------------------------------------------------
+# the Lean reference (`Vol.Spec.refEncode`, `strictWF`) evaluated by the compiled model, outside the differential run
+
+def lean_lines(lines):
+    from .. import build
+    from ..framework import run_lines
+    model, err = build.build_model()
+    if not model: raise RuntimeError("op2model does not build: " + str(err)[-500:])
+    out, rc, serr = run_lines(model, lines)
+    if len(out) != len(lines): raise RuntimeError("op2model returned %d lines for %d: %s" % (len(out), len(lines), serr[-300:]))
+    return out
+
+def check_against_lean(descs, strict):
+    """descs: list of (members, unused, slack).  Encodes each with the Python encoder and with the Lean `refEncode`; the two
+    must agree (and Lean's `Desc.wf`, and for `strict` also `Desc.strict` and `strictWF` of the bytes, must hold).  Returns
+    the encodings.  A disagreement is a defect of the checking machinery itself, not of the library."""
+    encs = [encode(ms, u, s) for ms, u, s in descs]
+    outs = lean_lines(["vol.refenc " + desc_arg(ms, u, s) for ms, u, s in descs])
+    for (ms, u, s), e, o in zip(descs, encs, outs):
+        want = f"{show(e)} wf=1 strict={1 if strict else 0} swf={1 if strict else 0}"
+        if strict:
+            if o != want: raise RuntimeError(f"Python and Lean reference encoders disagree: {o!r} vs {want!r} on {desc_arg(ms, u, s)[:200]}")
+        else:
+            if not o.startswith(f"{show(e)} wf=1 "): raise RuntimeError(f"Python and Lean reference encoders disagree: {o!r} vs {want!r} on {desc_arg(ms, u, s)[:200]}")
+    return encs
+
+# ---------------------------------------------------------------------------------------------------------------
+# pack cases (C01, C02): expected output of `vol.pack` computed from the inputs alone
+
+class PackCase:
+    def __init__(self, out, files, pre="-", tag=""):
+        """files: list of (path bytes, content bytes) in the order handed to CreateArchive"""
+        self.out = out; self.files = files; self.pre = pre; self.tag = tag
+    def line(self):
+        parts = ["!vol.pack", hexs(self.out), self.pre]
+        for p, c in self.files: parts += [hexs(p), data_spec(c)]
+        return " ".join(parts)
+    def members(self):
+        ms = [Member(p.rsplit(b"/", 1)[-1], c) for p, c in self.files]
+        return sorted(ms, key=lambda m: sort_key(m.name))
+    def expected(self, archive):
+        ms = self.members()
+        r = [f"ok {show(archive)} pre=same n={len(ms)}"]
+        for i, m in enumerate(ms):
+            s = show(m.payload)
+            r.append(f"{hexs(m.name)}:{len(m.payload)}:{UNCOMPRESSED}:{s}:{s}:{s}:{s}:{i}:{i}:1")
+        return " ".join(r)
+
+def bsearch_ci(names, x):
+    """`_stricmp`-style binary search (unsigned tolower, proper prefix first) — what a consumer of the format does"""
+    lo, hi = 0, len(names); kx = fold(x)
+    while lo < hi:
+        mid = (lo + hi) // 2; km = fold(names[mid])
+        if kx < km: hi = mid
+        elif km < kx: lo = mid + 1
+        else: return mid
+    return None
+
+def pack_check(pc, archive):
+    """direct oracle for a successful pack: exact expected line, and every listed name found by binary search"""
+    exp = pc.expected(archive)
+    def chk(out):
+        if out != exp:
+            return f"property demands {exp[:300]!r}, implementation returned {out[:300]!r}"
+        names = [m.name for m in pc.members()]
+        for i, n in enumerate(names):
+            for q in (n, n.swapcase()):
+                if bsearch_ci(names, q) != i: return f"binary search for {q!r} over the listing {names!r} does not find member {i}"
+        return None
+    return chk
